@@ -32,6 +32,7 @@ F_DANGLING = "C14-composition-dangling-suboperand"
 F_SPINE = "C14-extraction-non-left-spine"
 F_SIBLING = "C14-graph-same-type-subviews-share-id"
 F_HASH = "C14-graph-id-hash-collision"
+F_LEAFID = "C14-graph-operand-ids-local-to-subview"
 
 
 class Skip(Exception):
@@ -575,7 +576,7 @@ def make_leaf(rnd, shape, dt, small=False):
 
 
 LEAF_KINDS = ["raw", "fixed_ndarray", "cs_fb", "fs_fb", "fs_hb", "hs_hb", "ds_db", "dynamic_ndarray", "hybrid_ndarray", "std_array"]
-LEAF_KINDS_GRAPH = ["fixed_ndarray", "cs_fb", "fs_fb", "fs_hb", "ds_db", "dynamic_ndarray", "raw"]
+LEAF_KINDS_GRAPH = ["fixed_ndarray", "cs_fb", "fs_fb", "fs_hb", "ds_db", "dynamic_ndarray", "hs_hb"]
 
 
 def np_of(arr):
@@ -702,7 +703,7 @@ def render_curry(rid, case, max_variants=12, rnd=None):
 # (b) composition cases
 # ---------------------------------------------------------------------------------------------
 CHAIN_FUNCTORS = ["add", "subtract", "multiply", "maximum", "negative", "square", "transpose", "reshape", "flatten", "flip", "expand_dims", "tile",
-                  "sum", "reduce_add", "reduce_maximum", "cumsum", "concatenate", "matmul", "moveaxis", "roll", "pad", "where", "broadcast_to",
+                  "sum", "reduce_add", "reduce_maximum", "cumsum", "concatenate", "matmul", "moveaxis", "roll", "pad", "broadcast_to",
                   "tanh", "exp", "divide", "fabs", "softmax", "mean", "outer_add", "repeat", "take", "squeeze", "relu", "minimum"]
 
 
@@ -892,7 +893,7 @@ EXTRACT_HDR = {"reduce": ["nmtools/array/functional/ufunc/reduce.hpp"], "accumul
                "indexing": ["nmtools/array/functional/indexing.hpp"]}
 
 
-def extract_case(rnd, depth=None, spine_only=False, avoid_same_sig=False, dt=None, alias=None, pool=None, repeated=None):
+def extract_case(rnd, depth=None, spine_only=False, avoid_same_sig=False, dt=None, alias=None, pool=None, repeated=None, avoid_leafid=False):
     """stages in pipe format: value ids = leaves first, then stage results; the last stage is the view v"""
     pool = pool or EXTRACT_WEIGHTED
     for _ in range(300):
@@ -986,6 +987,10 @@ def extract_case(rnd, depth=None, spine_only=False, avoid_same_sig=False, dt=Non
         if spine_only and not is_left_spine(case):
             continue
         if avoid_same_sig and same_sig_pairs(case):
+            continue
+        if case["alias"] and alias is None and any(len(s["in"]) == 1 and s["in"][0] < nl and FX[s["f"]].group in ("ufunc", "activation") for s in pst):
+            case["alias"] = False     # get_function_composition refuses (at compile time) an explicit alias directly under a unary ufunc
+        if avoid_leafid and leafid_class(case):
             continue
         return case
     return None
@@ -1115,15 +1120,15 @@ def render_extract(rid, case, parts=("apply", "graph")):
     ids = " + \",\" + ".join("std::to_string(c14::view_id(v%d))" % si for si in range(len(case["stages"])))
     lines.append("pg::emit(\"%s.view\", \"\\\"obs\\\":\" + pg::obs(%s) + \",\\\"ids\\\":[\" + %s + \"]\");" % (rid, final, ids))
     recs.append({"id": rid + ".view", "role": "view"})
+    if "graph" in parts:
+        lines.append("{ auto g_ = fn::get_compute_graph(%s); pg::emit(\"%s.graph\", \"\\\"g\\\":\" + c14::graph_json(g_, %s)); }" % (final, rid, leaves))
+        recs.append({"id": rid + ".graph", "role": "graph"})
     if "apply" in parts:
         lines.append("{ auto f_ = fn::get_function_composition(%s); auto ops_ = fn::get_function_operands(%s);" % (final, final))
         lines.append("  pg::emit(\"%s.ops\", \"\\\"ops\\\":\" + c14::operands_json(ops_, %s) + \",\\\"arity\\\":\" + std::to_string(c14::arity_of(f_)));" % (rid, leaves))
         lines.append("  auto r_ = fn::apply(f_, ops_); pg::emit(\"%s.apply\", \"\\\"obs\\\":\" + pg::obs(r_)); }" % rid)
         recs.append({"id": rid + ".ops", "role": "ops"})
         recs.append({"id": rid + ".apply", "role": "apply"})
-    if "graph" in parts:
-        lines.append("{ auto g_ = fn::get_compute_graph(%s); pg::emit(\"%s.graph\", \"\\\"g\\\":\" + c14::graph_json(g_, %s)); }" % (final, rid, leaves))
-        recs.append({"id": rid + ".graph", "role": "graph"})
     text = "    {\n        %s\n    }\n" % "\n        ".join(lines)
     return text, incs, recs
 
@@ -1147,6 +1152,19 @@ def dangling_class(case):
     for s in case["stages"]:
         fx = FX[s["f"]]
         if fx.group in ("ufunc",) and fx.arity >= 2 and any(i >= nl for i in s["in"]):
+            return True
+    return False
+
+
+def leafid_class(case):
+    """a view with >= 2 operands that is not a broadcasting ufunc (outer, matmul, concatenate ...) and has a view among its operands: operand ids are
+    positions local to each sub-view and are not renumbered, so leaves of different sub-views can share an id"""
+    if case.get("kind") != "extract" or case.get("alias"):
+        return False
+    nl = len(case["arrays"])
+    for s in case["stages"]:
+        fx = FX[s["f"]]
+        if fx.arity >= 2 and fx.group != "ufunc" and any(i >= nl for i in s["in"]):
             return True
     return False
 
@@ -1186,7 +1204,11 @@ def run_blocks(items, group=3):
     for it in items:
         if it["rid"] not in rendered:
             continue
-        g = 1 if it["case"]["kind"] == "extract" else group
+        g = group
+        if it["case"]["kind"] == "extract":
+            c_ = it["case"]
+            risky = (dangling_class(c_) and it.get("cfg", "gcc") == "gcc") or not is_left_spine(c_) or same_sig_pairs(c_) or leafid_class(c_) or "raw" in c_["leaf_kinds"]
+            g = 1 if risky else min(group, 3)
         key = (it.get("cfg", "gcc"), it["case"]["kind"], g)
         bycfg.setdefault(key, []).append(it)
     for (cfg, kind, g), its in bycfg.items():
@@ -1453,6 +1475,8 @@ def classify(case, failure):
         return None
     if ("view ids are not unique" in f or f.startswith("graph:")) and same_sig_pairs(case):
         return F_SIBLING
+    if f.startswith("graph:") and "share node ids" not in f and leafid_class(case):
+        return F_LEAFID
     if "view ids are not unique" in f or "id collision" in f or "share node ids" in f:
         return F_HASH
     return None
@@ -1497,8 +1521,8 @@ def fixed_compose_cases():
     add([F("add"), F("add"), C("dup3")], [A([2, 2], 3)])
     add([F("concatenate", ["0"], axis=0), F("flip", ["0"], axis=0)], [A([2, 3]), A([1, 3], 30)])
     add([F("subtract"), C("bury1"), F("square")], [A([2, 3]), A([2, 3], 50)])
-    add([F("subtract"), F("multiply"), C("dig3")], [A([2], 1), A([2], 10), A([2], 100), A([2], 1000)], ["raw", "fixed_ndarray", "ds_db", "std_array"])
-    add([F("maximum"), F("subtract"), C("bury3"), F("negative")], [A([2], 1), A([2], 10), A([2], 100), A([2], 1000)])
+    add([F("subtract"), F("multiply"), F("add"), C("dig3")], [A([2], 1), A([2], 10), A([2], 100), A([2], 1000)], ["raw", "fixed_ndarray", "ds_db", "std_array"])
+    add([F("maximum"), F("subtract"), F("add"), C("bury3")], [A([2], 1), A([2], 10), A([2], 100), A([2], 1000)])
     add([F("softmax", ["-1"], axis=-1), F("subtract"), F("reduce_maximum", ["-1", "nm::None", "nm::None", "nm::True"], axis=-1, keepdims=True), C("dup")],
         [A([2, 3], 1, "f64")])
     return cs
@@ -1529,7 +1553,7 @@ def fixed_extract_cases(th):
     add([A([2, 3]), A([3, 2], 3)], [("matmul", [0, 1], [], {}), ("reduce_add", [2], ["1"], {"axis": 1})])
     add([A([2, 3]), A([1, 3], 3)], [("concatenate", [0, 1], ["0"], {"axis": 0}), ("square", [2], [], {})])
     add([A([2, 2], 1, "f64"), A([2], 2, "f64")], [("divide", [0, 1], [], {}), ("exp", [2], [], {}), ("reduce_maximum", [3], ["0"], {"axis": 0}), ("sqrt", [4], [], {})], ["fs_hb", "fs_hb"])
-    one = ["transpose", "reshape", "add", "sum", "matmul", "tanh", "accumulate_add", "outer_add", "pad", "slice"] if not th else EXTRACT_FUNCTORS
+    one = ["transpose", "reshape", "add", "sum", "matmul", "tanh", "accumulate_add", "outer_add", "slice", "concatenate"] if not th else EXTRACT_FUNCTORS
     for n in one:
         c = extract_case(random.Random("C14:extract1:" + n), depth=1, pool=[n], alias=False, repeated=False, dt=FX[n].dt)
         if c:
@@ -1576,6 +1600,7 @@ class C14(e2.ProgenProp):
         excluded = {}
         spine = self._is_known(F_SPINE)
         nosib = self._is_known(F_SIBLING)
+        noleaf = self._is_known(F_LEAFID)
 
         def push(case, src):
             if case is None:
@@ -1586,6 +1611,9 @@ class C14(e2.ProgenProp):
                     return
                 if nosib and same_sig_pairs(case):
                     excluded[F_SIBLING] = excluded.get(F_SIBLING, 0) + 1
+                    return
+                if noleaf and leafid_class(case):
+                    excluded[F_LEAFID] = excluded.get(F_LEAFID, 0) + 1
                     return
             cfg = "gcc"
             if case["kind"] == "extract" and dangling_class(case) and self._is_known(F_DANGLING):
@@ -1604,7 +1632,7 @@ class C14(e2.ProgenProp):
         for i in range(500 if th else 14):
             push(compose_case(rnd), "random")
         for i in range(500 if th else 14):
-            push(extract_case(rnd, spine_only=spine, avoid_same_sig=nosib), "random")
+            push(extract_case(rnd, spine_only=spine, avoid_same_sig=nosib, avoid_leafid=noleaf), "random")
         return items, excluded
 
     # ---- engine ---------------------------------------------------------------------------------
